@@ -285,7 +285,12 @@ class OrderInterp(Interp):
     def unknown_name(self, ident: str, node: ast.AST) -> Any:
         mod = self.module_stack[-1]
         if ident in ("max", "min", "sorted", "len", "isinstance", "set", "list", "tuple", "bool",
-                     "iter", "next"):
+                     "iter", "next", "all", "any"):
+            return ("builtin", ident)
+        import builtins as _b
+
+        if hasattr(_b, ident) and self.prog.resolve_name(mod, ident) is None and ident not in mod.imports:
+            # any other Python builtin: never an opaque (always truthy) record — the call fails closed
             return ("builtin", ident)
         tgt = self.prog.resolve_name(mod, ident)
         if tgt is not None:
